@@ -45,6 +45,21 @@ def _own_overlay(pid):
 
 vf.overlay_file = _own_overlay
 
+
+def _patient(fn, least):
+    """The machine may be busy with other work (load averages in the hundreds were seen): a TLC process that needs
+    seconds alone then needs many minutes.  Every TLC call of this check - also those made for it by the shared
+    checks/aggregation.py - gets at least `least` seconds before it is given up (a timeout is exit 2, never a verdict)."""
+    def call(*a, **k):
+        if k.get("timeout") is None or k["timeout"] < least:
+            k["timeout"] = least
+        return fn(*a, **k)
+    call.__name__ = fn.__name__
+    return call
+
+
+vf.tlc = _patient(vf.tlc, 1800)      # (tlc_exhaustive / tlc_scenarios / validate_trace call vf.tlc with their own timeout)
+
 # the aggregation pipeline that the aggregation jobs of this property start (spec/Aggregation.tla, pipeline B)
 _spec = importlib.util.spec_from_file_location(
     "check_aggregation", os.path.join(os.path.dirname(os.path.abspath(__file__)), "aggregation.py"))
